@@ -74,17 +74,26 @@ func (w *world) newNode(state string, h int) (*node, error) {
 			return nil, fmt.Errorf("canonical headers rejected: %w", err)
 		}
 		n.hdrH = h + 2
-	case "hdr_ahead_badroot":
-		// header h+2 carries a wrong PrevStateRoot and is signed by its designated validators; the node cannot know yet
-		bad := clone(w.blocks[h+2])
-		bad.PrevStateRoot[5] ^= 0x40
-		seal(bad, w.signer[h+2], w.magic)
-		raw, _ := wire(bad)
+	case "hdr_ahead_badroot", "hdr_ahead_badroot2":
+		// header h+2 carries a wrong PrevStateRoot and is signed by its designated validators; the node cannot know yet.
+		// hdr_ahead_badroot: it is the last known header (exactly one header above block h+1);
+		// hdr_ahead_badroot2: one more header (linked to it) is known.
+		raw, _ := wire(w.badRoot(h + 2))
 		bb, _ := unwire(raw, w.srih)
-		if err := n.bc.AddHeaders(hdr(h+1), &bb.Header); err != nil {
+		hs := []*block.Header{hdr(h + 1), &bb.Header}
+		n.hdrH = h + 2
+		if state == "hdr_ahead_badroot2" {
+			third := clone(w.blocks[h+3])
+			third.PrevHash = bb.Hash()
+			seal(third, w.signer[h+3], w.magic)
+			raw3, _ := wire(third)
+			b3, _ := unwire(raw3, w.srih)
+			hs = append(hs, &b3.Header)
+			n.hdrH = h + 3
+		}
+		if err := n.bc.AddHeaders(hs...); err != nil {
 			return nil, fmt.Errorf("headers rejected: %w", err)
 		}
-		n.hdrH = h + 2
 	case "pool_has":
 		pool(h + 1)
 		pool(h + 2)
